@@ -622,6 +622,19 @@ class Evaluator:
             else:
                 self.exec_block(st.orelse, env)
             return
+        if isinstance(st, ast.While):
+            # a loop whose test folds on every round (counting down a rank, scanning a static table)
+            for _round in range(10000):
+                if not self.decide(st.test, env):
+                    self.exec_block(st.orelse, env)
+                    return
+                try:
+                    self.exec_block(st.body, env)
+                except _Break:
+                    return
+                except _Continue:
+                    continue
+            raise AnalysisError("E3: while loop does not terminate within 10000 rounds (line %d)" % st.lineno)
         if isinstance(st, ast.Break):
             raise _Break()
         if isinstance(st, ast.Continue):
@@ -1322,6 +1335,25 @@ class Evaluator:
             return base[k]
         return self.subscript(base, self.index_of(node.slice, env), node)
 
+    def foreign_helper_call(self, dotted, args, kwargs, node):
+        """a function of another module of the repository that is not one of the pinned API names (a helper added there):
+        evaluated in its own module"""
+        parts = dotted.split(".")
+        if len(parts) < 3 or parts[0] != "xfab":
+            return NotImplemented
+        from . import core as _core
+        rel = "/".join(parts[:-1]) + ".py"
+        try:
+            other = _core.module(rel)
+        except AnalysisError:
+            return NotImplemented
+        if parts[-1] not in other.functions or not is_helper(other, parts[-1]):
+            return NotImplemented
+        sub = type(self)(other)
+        sub.import_values = self.import_values
+        sub.depth = self.depth
+        return sub._call_fn(other.functions[parts[-1]], list(args), dict(kwargs))
+
     def resolve_constant(self, dotted):
         """a module-level constant of another module of the repository (`atomlib.CONSTANT_SLOT`): evaluated in that module"""
         parts = dotted.split(".")
@@ -1384,6 +1416,13 @@ class Evaluator:
             A = materialise(base)
             if A is not None:
                 return tuple(Rat.const(i) for i in A.shape)
+        if node.attr in ("ndim", "size") and isinstance(base, (Arr, Opaque)):
+            A = base if isinstance(base, Arr) else materialise(base)
+            if A is not None:
+                n_ = 1
+                for d_ in A.shape:
+                    n_ *= d_
+                return Rat.const(len(A.shape) if node.attr == "ndim" else n_)
         return ("method", base, node.attr)
 
     def e_Call(self, node, env):
@@ -1433,6 +1472,9 @@ class Evaluator:
                     r = self.import_policy(name, args, kwargs, node)
                     if r is not NotImplemented:
                         return r
+                r = self.foreign_helper_call(name, args, kwargs, node)
+                if r is not NotImplemented:
+                    return r
                 return self.opaque_call(name, args, kwargs, node)
             if kind == "method":
                 return self.method_call(f[1], f[2], args, kwargs, node)
@@ -2227,6 +2269,16 @@ class Evaluator:
                 return tot
         if name == "concatenate" and len(args) == 2 and isinstance(args[0], (list, tuple)) and const_int(args[1]) is not None and not kwargs:
             args, kwargs = [args[0]], {"axis": args[1]}
+        if name == "column_stack" and len(args) == 1 and isinstance(args[0], (list, tuple)) and not kwargs:
+            cols = []
+            for x_ in args[0]:
+                P_ = x_ if isinstance(x_, Arr) else materialise(x_)
+                if P_ is None:
+                    raise AnalysisError("E3: column_stack of a non-explicit array (line %d)" % node.lineno)
+                if len(P_.shape) == 1:
+                    P_ = Arr([[v_] for v_ in P_.data])
+                cols.append(P_)
+            return self._np_call("concatenate", [cols], {"axis": Rat.const(1)}, node)
         if name in ("hstack", "vstack", "concatenate", "stack") and len(args) == 1 and isinstance(args[0], (list, tuple)) \
                 and set(kwargs) <= {"axis"}:
             parts = [x if isinstance(x, Arr) else materialise(x) for x in args[0]]
